@@ -335,9 +335,13 @@ type credSpec struct {
 	Expired bool
 	Revoked bool
 	Value   string // credentialSubject.name / role
+	Raw     string // a credential minted earlier, presented again as it is (parts scopes / status)
 }
 
 func (e *env) cred(c credSpec) string {
+	if c.Raw != "" {
+		return c.Raw
+	}
 	now := time.Now().Unix()
 	id := e.issuer.did + "#" + uuid.NewString()
 	exp := now + 3600*24
@@ -2047,6 +2051,7 @@ type flowCase struct {
 
 type flowRequest struct { // one OpenID4VP authorization request of the node, as fetched from its request_uri
 	Owner, DefID, Nonce, State, Audience string
+	PDURI                                string // presentation_definition_uri of the request object
 }
 
 type flowSession struct {
@@ -2063,6 +2068,7 @@ type flowSession struct {
 	code     string
 	dead     string
 	location string // the redirect the authorize request was answered with
+	rawCreds map[string]string // credential type -> a credential minted earlier that the wallet presents again (part status)
 }
 
 func (n *node) get(path string) (int, http.Header, []byte) {
@@ -2104,6 +2110,7 @@ func (fs *flowSession) fetchRequest(location string) *flowRequest {
 	fr.Audience, _ = claims["client_id"].(string)
 	if pdu, err := url.Parse(fmt.Sprint(claims["presentation_definition_uri"])); err == nil {
 		fr.Owner = pdu.Query().Get("wallet_owner_type")
+		fr.PDURI = pdu.Path + "?" + pdu.RawQuery
 	}
 	for _, d := range e.scopes[fs.scope] {
 		if d.Owner == fr.Owner {
@@ -2134,6 +2141,9 @@ func (e *env) startFlowAs(n *node, tenant, scope, clientID string, fetch bool) (
 		return fs, fmt.Sprintf("authorize request refused: %d %s", status, body)
 	}
 	fs.location = hdr.Get("Location")
+	if lu, err := url.Parse(fs.location); err == nil && lu.Query().Get("error") != "" {
+		return fs, "authorize request answered with an error redirect: " + lu.Query().Get("error")
+	}
 	if fetch {
 		fs.cur = fs.fetchRequest(fs.location)
 	}
@@ -2187,7 +2197,7 @@ func (fs *flowSession) answer(a flowAnswer, otherState string, prevFulfilled str
 	addDef := func(d *definition) {
 		for _, desc := range d.Descriptors {
 			entries = append(entries, map[string]any{"id": desc.ID, "format": "jwt_vc", "path": fmt.Sprintf("$.verifiableCredential[%d]", len(creds))})
-			creds = append(creds, credSpec{Type: desc.Type, Subject: signer, Value: "flow-" + desc.Type})
+			creds = append(creds, credSpec{Type: desc.Type, Subject: signer, Value: "flow-" + desc.Type, Raw: fs.rawCreds[desc.Type]})
 		}
 	}
 	if a.Def != "none" && def != nil {
